@@ -125,6 +125,15 @@ func (s Spec) Bytes() []byte {
 		out = append(out, tails[1])
 		out = append(out, vrt.Bytes(r, 7)...)
 		return out
+	case "alignrun":
+		// ordinary text of Size bytes, then a run of P equal bytes (distance-1 matches), then text again:
+		// the run starts, and its matches end, at a chosen offset relative to the ring buffer
+		out = append(out, Spec{Fam: "text", Size: n, Seed: s.Seed}.Bytes()...)
+		for k := 0; k < s.P; k++ {
+			out = append(out, '-')
+		}
+		out = append(out, " end of the ruler line\r\n"...)
+		return out
 	case "lowent": // P symbols with a geometric distribution
 		p := max(s.P, 2)
 		syms := vrt.Bytes(r, p)
@@ -352,6 +361,10 @@ func AlignSpecs(full bool) []Spec {
 			if full || v < 2 || off%3 == 0 {
 				out = append(out, Spec{Fam: "align", Size: off, P: 59 + 256*v, Seed: int64(off)})
 			}
+		}
+		out = append(out, Spec{Fam: "alignrun", Size: off, P: 130, Seed: int64(off % 97)})
+		if full || off%5 == 0 {
+			out = append(out, Spec{Fam: "alignrun", Size: off, P: 61 + off%200, Seed: int64(off % 89)})
 		}
 		if full || off%7 == 0 {
 			out = append(out, Spec{Fam: "align", Size: off, P: 3 + 256*(off%4), Seed: int64(off)}, Spec{Fam: "align", Size: off, P: 60 + 256*(off%4), Seed: int64(off)},
